@@ -82,3 +82,42 @@ Proof.
   destruct l as [|h t]; [now rewrite !skipn_nil|].
   replace (x + S y)%nat with (S (x + y)) by lia. cbn [skipn]. apply IH.
 Qed.
+
+(* more facts about one byte: MHDR and FCtrl bits *)
+Definition byte_facts2_b (b : N) : bool :=
+  (N.shiftr (N.land b 224) 5 =? b / 32) && (N.land b 3 =? b mod 4) &&
+  Bool.eqb (negb (N.land b 128 =? 0)) ((b / 128) mod 2 =? 1) &&
+  Bool.eqb (negb (N.land b 64 =? 0)) ((b / 64) mod 2 =? 1) &&
+  Bool.eqb (negb (N.land b 32 =? 0)) ((b / 32) mod 2 =? 1) &&
+  Bool.eqb (negb (N.land b 16 =? 0)) ((b / 16) mod 2 =? 1).
+Lemma byte_facts2_sweep : forallb byte_facts2_b (nrange 256) = true.
+Proof. vm_compute. reflexivity. Qed.
+Lemma byte_facts2 b : b < 256 ->
+  N.shiftr (N.land b 224) 5 = b / 32 /\ N.land b 3 = b mod 4 /\
+  negb (N.land b 128 =? 0) = ((b / 128) mod 2 =? 1) /\
+  negb (N.land b 64 =? 0) = ((b / 64) mod 2 =? 1) /\
+  negb (N.land b 32 =? 0) = ((b / 32) mod 2 =? 1) /\
+  negb (N.land b 16 =? 0) = ((b / 16) mod 2 =? 1).
+Proof.
+  intros H. pose proof (sweep1 byte_facts2_b 256 byte_facts2_sweep b H) as S.
+  unfold byte_facts2_b in S. rewrite !andb_true_iff, !N.eqb_eq in S.
+  repeat match type of S with _ /\ _ => destruct S as [S ?] end.
+  repeat match goal with H : Bool.eqb _ _ = true |- _ => apply Bool.eqb_prop in H end.
+  tauto.
+Qed.
+
+(* (hi << k) | lo with lo below 2^k is hi * 2^k + lo *)
+Lemma lor_disjoint hi lo k : lo < 2 ^ k -> N.lor (hi * 2 ^ k) lo = hi * 2 ^ k + lo.
+Proof.
+  intros Hlo. apply N.bits_inj_iff. intros n. rewrite N.lor_spec.
+  assert (Hp : 2 ^ k <> 0) by (apply N.pow_nonzero; discriminate).
+  destruct (N.lt_ge_cases n k) as [Hn|Hn].
+  - rewrite N.mul_pow2_bits_low by exact Hn. cbn [orb].
+    rewrite <- (N.mod_pow2_bits_low (hi * 2 ^ k + lo) k n Hn).
+    rewrite N.add_comm, N.mod_add by exact Hp. now rewrite N.mod_small.
+  - replace n with ((n - k) + k) by lia.
+    rewrite <- !N.div_pow2_bits.
+    rewrite N.div_mul by exact Hp.
+    rewrite (N.div_small lo) by exact Hlo. rewrite N.bits_0, orb_false_r.
+    rewrite N.add_comm, N.div_add by exact Hp. rewrite (N.div_small lo) by exact Hlo. reflexivity.
+Qed.
